@@ -358,6 +358,41 @@ def targets(ctx):
                     add("group_alters_known_field", where, f"got={got!r:.200} want={want!r:.200} input={bad.hex()[:160]}")
             labs.append(f"group:{where}:{status}")
             return Eval(fails, nontrivial=True, labels=labs)
+        if kind == "bad_in_group":
+            # a (skipped) group whose CONTENT is malformed: the same rules as at the top level apply inside it
+            used = {f.number for f in mi.fields}
+            gnum = [n for n in (9999, 19, 1000, 77) if n not in used][0]
+            what = ["wire_type_6", "wire_type_7", "field_number_0", "never_closed", "closed_by_other_number", "inner_len_overruns"][fault["what"] % 6]
+            good = wire.make_record(5, 0, 7).raw if fault.get("lead") else b""
+            end = wire.tag(gnum, 4)
+            piece = {"wire_type_6": wire.tag(3, 6), "wire_type_7": wire.tag(3, 7) + b"\x01", "field_number_0": wire.tag(0, 0) + b"\x01",
+                     "never_closed": b"", "closed_by_other_number": b"", "inner_len_overruns": wire.tag(4, 2) + b"\x7f" + b"ab"}[what]
+            if what == "never_closed":
+                end = b""
+            elif what == "closed_by_other_number":
+                end = wire.tag(gnum + 1, 4)
+            depth2 = fault.get("nest")
+            body = good + piece
+            if depth2:  # the malformed part sits in a group nested inside the group
+                body = wire.tag(gnum + 2, 3) + body + (wire.tag(gnum + 2, 4) if what not in ("never_closed",) else b"")
+            grp = wire.tag(gnum, 3) + body + end
+            at = fault["pos"] % (len(recs) + 1)
+            # (never_closed / overrun at the very end only, else the following records merely become group content)
+            if what in ("never_closed", "inner_len_overruns"):
+                at = len(recs)
+            bad = b"".join(r.raw for r in recs[:at]) + grp + b"".join(r.raw for r in recs[at:])
+            try:
+                c.rf(name).FromString(bad)
+                return Eval([], discard="reference accepts this malformed group")
+            except Exception:  # noqa: BLE001
+                pass
+            entry = ["parse", "FromString", "load", "load_size", "load_delimited"][fault.get("entry", 0) % 5]
+            status, res = decode(name, bad, entry)
+            tally(name, bad, status)
+            if status == "ok":
+                add("malformed_group_accepted", f"{what}|{'nested' if depth2 else 'flat'}|{entry}", f"input={bad.hex()[:200]}")
+            labs.append(f"bad_in_group:{what}:{status}")
+            return Eval(fails, nontrivial=True, labels=labs)
         raise AssertionError(kind)
 
     # ------------------------------------------------------------------ (f) random bytes
@@ -388,6 +423,7 @@ def targets(ctx):
         st.fixed_dictionaries({"kind": st.just("mismatch"), "field": st.integers(0, 40), "wt": st.integers(0, 3), "v": st.integers(0, 999), "after": st.booleans(), "pos": st.integers(0, 20), "entry": st.integers(0, 4)}),
         st.fixed_dictionaries({"kind": st.just("group"), "field": st.integers(0, 40), "known_number": st.booleans(), "n_inner": st.integers(0, 5), "pos": st.integers(0, 20), "entry": st.integers(0, 4)}),
         st.fixed_dictionaries({"kind": st.just("inner_truncation"), "field": st.integers(0, 40), "pos": st.integers(0, 200)}),
+        st.fixed_dictionaries({"kind": st.just("bad_in_group"), "what": st.integers(0, 5), "lead": st.booleans(), "nest": st.booleans(), "pos": st.integers(0, 20), "entry": st.integers(0, 4)}),
     )
 
     # values rich in packed lists of multi-byte elements and in sub-messages (targets of inner truncation)
